@@ -580,6 +580,20 @@ fn main()
             (1, 0, vec![W::G(comp(1, vec![(lib("H"), vec![1])]), vec![0])]),
             (1, 0, vec![W::G(lp(3, comp(0, vec![])), vec![])]),
             (2, 1, vec![W::CG(vec![0], 1, lp(3, comp(1, vec![(lib("H"), vec![0])])), vec![1])]),
+            // regression witnesses of the (B) class attribution (all four are inside KNOWN classes; a
+            // wrong attribution would report them as `…:plain` / a wrong panic class):
+            // a wrongly drawn in-range loop followed by a correctly drawn conditional C<C<C<I>>>
+            (4, 1, vec![W::CG(vec![], 0, lp(4, comp(3, vec![(lib("CX"), vec![1, 2]), (lib("CH"), vec![2, 0]), (lib("H"), vec![2])])), vec![2, 0, 3]),
+                        W::CG(vec![0], 1, GT::C(Box::new(GT::C(Box::new(GT::C(Box::new(lib("I"))))))), vec![0, 1, 2, 3])]),
+            // C<Comp[T;T]> loses one T; its second stage silently matches the following CT
+            (2, 0, vec![W::G(GT::C(Box::new(comp(1, vec![(lib("T"), vec![0]), (lib("T"), vec![0])]))), vec![0, 1]),
+                        W::G(lib("CT"), vec![0, 1]), W::G(lib("H"), vec![0])]),
+            // a conditional gate that draws nothing: the condition dots point at a bare wire
+            (2, 1, vec![W::CG(vec![0], 0, comp(2, vec![]), vec![1, 0])]),
+            // a mis-sized sub-gate inside a zero-iteration loop is never visited; the panic is the CCX's
+            (3, 0, vec![W::G(lp(0, comp(2, vec![(lib("CX"), vec![1])])), vec![0, 1]), W::G(lib("CCX"), vec![1, 0, 2])]),
+            // identity gates under controls / conditions are drawn as the bare wire (accepted reading)
+            (3, 1, vec![W::CG(vec![0], 1, lib("I"), vec![1]), W::G(GT::C(Box::new(GT::C(Box::new(lib("I"))))), vec![0, 1, 2]), W::G(lib("H"), vec![2])]),
         ];
         for (nq, nc, ws) in cases
         {
